@@ -321,4 +321,8 @@ class _CommonVisitors(visitor.NodeVisitor):
         substring = self.visit(substr)
         op = getattr(identifier, func)
 
+        if isinstance(substr, ast.String) and any(c in substr.val for c in "%_/"):
+            # LIKE wildcards in a literal substring must match themselves:
+            return op(substr.val, autoescape=True)
+
         return op(substring)
